@@ -624,6 +624,16 @@ func (p *pp) handleMethods(verb rune) (handled bool) {
 
 	if p.override != overrideUnsafe {
 		switch v := p.arg.(type) {
+		case w.SafeWrapper:
+			// A Safe() wrapper reaches the method dispatch when it is an
+			// element of an interface-typed container or is itself
+			// wrapped in Safe(). Print the inner value with the active
+			// verb and flags, like printArg does at the top level.
+			handled = true
+			defer p.startSafeOverride().restore()
+			p.printArg(v.GetValue(), verb)
+			return
+
 		case i.SafeFormatter:
 			handled = true
 			defer p.catchPanic(p.arg, verb, "SafeFormat")
